@@ -39,6 +39,14 @@ CHECKS = {
    text="Key sets built to collide under a user-supplied hasher (full 64-bit collisions of 2..6 keys; same-shard / same-low-bits collisions): memsim histories with ample capacity under the exact reference model (every lookup of k returns k's own current entry, ops on k1 never change k2) and fetchsim histories over colliding keys under the single-flight protocol model (flights of colliding keys stay separate).",
    note="Memory cache and in-flight table only in this round; the hybrid (disk index by hash, write queue, recovery) half is added with hybsim. contains() false positives on the disk tier are allowed by documentation.",
    technique="model-based property testing with an adversarial user-supplied hasher (proptest random)"),
+ "C12": dict(engine="hybsim", category="exploration", design="§5 C12",
+   text="hybsim histories with immediate io (every step quiescent) over insert_with_properties (Default/InMem/OnDisk), storage-writer inserts, get / get_or_fetch (memory hit, disk hit, origin), handle drops, evict_all and capacity evictions, load throttling, close, reopen; both policies, flush_on_close on/off, admission filter admit / reject some keys, FifoPicker probation 10/50/100 % plus a wrapping-device sub-run so disk-loaded entries are reported Young and Old. Differential oracle: the (key, version) set newly present in device data writes of each step (attributed by an independent format reader) must equal a write-expectation model of policy and advice.",
+   note="What close must persist is C15's claim; here close writes are only checked for what must NOT be written. The Young/Old age is read from the entry foyer returns. Values >= 25 bytes so every written entry is attributable.",
+   technique="differential property testing against a write-expectation model on a simulated device (proptest random)"),
+ "C15": dict(engine="hybsim", category="exploration", design="§5 C15",
+   text="hybsim histories ending in: snapshot of the memory tier, close(), up to 4 ops on the closed cache (inserts, removes, second close, lookups), reopen, get of every key; variants: drop without close, and 'process dies the instant close() returns' (held io; only device writes completed by then survive). Oracle: close resolves with Ok (twice), no device write after close returned, flush_on_close=false writes no entry data, every non-InMem resident entry hits with exactly its version after reopen (miss = violation), InMem residents miss. Hangs by quiescence.",
+   note="Provisos enforced by construction and verified from the write log: resident set fits the flush buffer, no block reclaimed; entries that cannot be written at all are outside the claim. One known finding (LRU-pinned entry at close) tolerated by structural signature.",
+   technique="model-based property testing on a deterministic simulated device incl. crash-at-return (proptest random)"),
 }
 
 NOT_YET = {
@@ -82,7 +90,7 @@ def main():
         "engines": [
             {"name": "memsim", "path": "/verif/harness/core/src/memsim.rs", "serves_properties": ["C05", "C13", "C14", "C16", "C17", "C18"],
              "kind_free_text": "single-threaded interpreter for foyer::Cache histories + event-driven reference model (memoracle.rs) + eviction reference models (evmodel.rs)"},
-            {"name": "hybsim", "path": "/verif/harness/core/src/hybsim.rs", "serves_properties": ["C01"],
+            {"name": "hybsim", "path": "/verif/harness/core/src/hybsim.rs", "serves_properties": ["C01", "C12", "C15", "C17"],
              "kind_free_text": "deterministic interpreter for HybridCache histories on a simulated device/io engine (simdev.rs) with harness-owned io completion order; oracles in hyboracle.rs; independent format reader fmtparse.rs"},
             {"name": "fetchsim", "path": "/verif/harness/core/src/fetchsim.rs", "serves_properties": ["C06", "C11", "C17"],
              "kind_free_text": "manual executor for get_or_fetch histories: harness futures for disk lookup / origin fetch, harness-driven runtime, protocol state machine as oracle"},
